@@ -57,6 +57,39 @@ func init() {
 		}
 		return w.bigBytesSym(b)
 	}
+	I["(*math/big.Int).FillBytes"] = func(w *Worker, fn *ssa.Function, a []Value) Value {
+		_, b := w.bigOfPtr(a[0])
+		buf := a[1].(Slice)
+		var bs []*Term
+		if b.T == nil {
+			for _, x := range b.C.Bytes() {
+				bs = append(bs, w.tc.Const(8, uint64(x)))
+			}
+		} else {
+			if nn := w.bigNonNeg(b); !nn.IsTrue() {
+				w.assume(nn)
+			}
+			bs = w.splitBytes(w.bigMagnitude(b))
+		}
+		if len(bs) > len(buf) {
+			extra := bs[:len(bs)-len(buf)]
+			var zs []*Term
+			for _, e := range extra {
+				zs = append(zs, w.tc.Eq(e, w.tc.Const(8, 0)))
+			}
+			w.mayPanic("explicit", w.tc.And(zs...), "math/big: buffer too small to fit value")
+			bs = bs[len(extra):]
+		}
+		pad := len(buf) - len(bs)
+		for i := range buf {
+			if i < pad {
+				buf[i] = w.tc.Const(8, 0)
+			} else {
+				buf[i] = bs[i-pad]
+			}
+		}
+		return buf
+	}
 	I["(*math/big.Int).Cmp"] = func(w *Worker, fn *ssa.Function, a []Value) Value {
 		_, x := w.bigOfPtr(a[0])
 		_, y := w.bigOfPtr(a[1])
